@@ -193,7 +193,46 @@ Table == {
   One(381, "bundle", {36}, "news.bundle.create"), One(382, "cat", {34}, "news.cat.create"),
   One(400, "art", {20}, "news.read"), One(410, "post", {21}, "news.post"),
   One(411, "art", {33}, "news.art.delete"),
-  Free(500, "ka")
+  Free(500, "ka"),
+  (* target kinds whose info-fork side file lies about the kind: "folderlie" is a folder whose .info_ file claims a
+     TEXT file, "filelie" a file whose .info_ file claims a folder.  The kind is what the object is. *)
+  One(204, "filelie", {0}, "file.delete"), One(204, "folderlie", {6}, "folder.delete"),
+  One(208, "filelie", {4}, "file.move"), One(208, "folderlie", {8}, "folder.move"),
+  One(207, "filelie.comment", {28}, "file.comment"), One(207, "folderlie.comment", {29}, "folder.comment"),
+  One(207, "filelie.rename", {3}, "file.rename"), One(207, "folderlie.rename", {7}, "folder.rename"),
+  (* field-content variants "<context>/<variant>": optional fields present / absent, option values, 2- vs 4-byte
+     integers, an extra unknown field.  None of them changes which privilege governs the request. *)
+  One(108, "pm/noopt", {40}, "pm.send"), One(108, "pm/opt2", {40}, "pm.send"), One(108, "pm/opt3", {40}, "pm.send"),
+  One(108, "pm/opt4", {40}, "pm.send"), One(108, "pm/opt4w", {40}, "pm.send"), One(108, "pm/quote", {40}, "pm.send"),
+  One(108, "pm/extra", {40}, "pm.send"),
+  One(105, "public/emote", {10}, "chat.send"), One(105, "public/zeroid", {10}, "chat.send"),
+  One(105, "public/opt2", {10}, "chat.send"), One(105, "private/emote", {10}, "chat.send"),
+  One(105, "public/extra", {10}, "chat.send"),
+  One(110, "ban0/opt0", {22}, "user.disconnect"), One(110, "ban0/opt3", {22}, "user.disconnect"),
+  One(110, "ban0/opt1w", {22}, "user.disconnect"), One(110, "ban0/extra", {22}, "user.disconnect"),
+  One(103, "post/extra", {21}, "board.post"), One(355, "bcast/extra", {32}, "broadcast"),
+  One(112, "new/extra", {11}, "chat.open"), One(303, "info/extra", {24}, "info.get"),
+  One(202, "file/preview", {2}, "download.file"), One(202, "file/extra", {2}, "download.file"),
+  One(203, "uploads/nosize", {1}, "upload.file"), One(203, "uploads/extra", {1}, "upload.file"),
+  R(203, "elsewhere/extra", {1, 25}, {}, << {"upload.file", "upload.outside"} >>),
+  R(213, "uploads/opt1", {38}, {{1}}, << {"upload.folder"} >>),
+  One(204, "file/extra", {0}, "file.delete"), One(204, "folder/extra", {6}, "folder.delete"),
+  One(205, "root/extra", {5}, "folder.create"),
+  One(209, "file/extra", {31}, "alias.make"),
+  [R(304, "name/opts", {26}, {}, << {"name.any"} >>) EXCEPT !.sp = "anyname"],
+  [R(304, "name/auto", {26}, {}, << {"name.any"} >>) EXCEPT !.sp = "anyname"],
+  [R(304, "name/icon4", {26}, {}, << {"name.any"} >>) EXCEPT !.sp = "anyname"],
+  [R(121, "name/auto", {26}, {}, << {"name.any"} >>) EXCEPT !.sp = "anyname"],
+  One(350, "new/nopw", {14}, "acct.create"), One(350, "new/extra", {14}, "acct.create"),
+  One(351, "del/extra", {15}, "acct.delete"),
+  One(353, "set/nopw", {17}, "acct.modify"), One(353, "set/pw", {17}, "acct.modify"),
+  One(353, "set/noaccess", {17}, "acct.modify"),
+  One(349, "modify/nopw", {17}, "acct.modify"), One(349, "modify/pw", {17}, "acct.modify"),
+  One(381, "bundle/nested", {36}, "news.bundle.create"), One(382, "cat/nested", {34}, "news.cat.create"),
+  One(400, "art/id2", {20}, "news.read"), One(400, "art/noflavor", {20}, "news.read"),
+  One(410, "post/id2", {21}, "news.post"), One(410, "post/reply", {21}, "news.post"),
+  One(411, "art/id2", {33}, "news.art.delete"), One(411, "art/norecurse", {33}, "news.art.delete"),
+  R(371, "cat/extra", {20}, {{}}, << {"news.read"} >>)
 }
 
 Types == {r.t : r \in Table}         \* the 43 registered transaction types
@@ -276,13 +315,17 @@ Create(s) ==
   /\ UNCHANGED <<live, banned, nm>>
 
 (* Kick: the requester (access s.acc) sends Disconnect User (110) with ban option s.ban against "other", whose
-   account has access s.tacc. *)
+   account has access s.tacc.  s.third: a bystander "prot" (access s.pacc) is logged in as well - from the same
+   address as the target ("same"), from another address ("other") - or there is none ("none").  A disconnect request
+   names one user: the bystander stays (and a bystander holding privilege 23 must stay, whatever the ban option). *)
 Kick(s) ==
-  LET ok == 22 \in s.acc /\ 23 \notin s.tacc IN
-  /\ accts' = [accts EXCEPT !["req"] = s.acc, !["other"] = s.tacc]
+  LET ok == 22 \in s.acc /\ 23 \notin s.tacc
+      a1 == [accts EXCEPT !["req"] = s.acc, !["other"] = s.tacc]
+  IN
+  /\ accts' = IF s.third = "none" THEN a1 ELSE a1 @@ ("prot" :> s.pacc)
   /\ rep' = IF ok THEN "ok" ELSE "refused"
   /\ fx' = IF ok THEN {"user.disconnect"} \cup (IF s.ban > 0 THEN {"user.ban"} ELSE {}) ELSE {}
-  /\ live' = IF ok THEN live \ {"other"} ELSE live
+  /\ live' = (IF ok THEN live \ {"other"} ELSE live) \cup (IF s.third = "none" THEN {} ELSE {"prot"})
   /\ banned' = IF ok /\ s.ban > 0 THEN banned \cup {"other"} ELSE banned
   /\ last' = s
   /\ UNCHANGED <<cap, nm>>
@@ -292,11 +335,22 @@ Rt(s) ==
   /\ last' = s /\ fx' = {} /\ rep' = "none"
   /\ UNCHANGED <<accts, cap, live, banned, nm>>
 
+(* Upd: an administrator changes the privileges of the account "victim" to s.S (Set User 353 or the modify branch
+   of Update User 349) while a session of that account is live.  The session is told its new privileges in a User
+   Access (354) transaction (353; the code sends none for 349 - the session then keeps deciding by, and knowing,
+   its old set) and whatever it is told is what is decided and what the file says. *)
+Upd(s) ==
+  /\ accts' = [accts EXCEPT !["req"] = Priv, !["victim"] = s.S]
+  /\ last' = s /\ fx' = {"acct.modify"} /\ rep' = "ok"
+  /\ UNCHANGED <<cap, live, banned, nm>>
+
 Guard(s) ==
   CASE s.op = "handle" -> HasRow(s.t, s.k) /\ s.acc \subseteq Priv /\ s.rd \in {"atomic", "partial"}
     [] s.op = "create" -> s.by \in DOMAIN accts /\ s.want \subseteq Priv /\ s.via \in {349, 350}
     [] s.op = "kick"   -> s.ban \in {0, 1, 2} /\ s.acc \subseteq Priv /\ s.tacc \subseteq Priv
+                          /\ s.third \in {"none", "same", "other"} /\ s.pacc \subseteq Priv
     [] s.op = "rt"     -> s.S \subseteq Priv
+    [] s.op = "upd"    -> s.S \subseteq Priv /\ s.old \subseteq Priv /\ s.via \in {349, 353}
     [] OTHER -> FALSE
 
 Apply(s) ==
@@ -304,6 +358,7 @@ Apply(s) ==
     [] s.op = "create" -> Create(s)
     [] s.op = "kick"   -> Kick(s)
     [] s.op = "rt"     -> Rt(s)
+    [] s.op = "upd"    -> Upd(s)
 
 (* ---- properties ----------------------------------------------------------- *)
 Actor == IF last.op = "create" THEN last.by ELSE "req"
@@ -331,7 +386,7 @@ ProtectedNeverKicked ==
         ((u \in live => u \in live') /\ (u \notin banned => u \notin banned'))]_vars
 
 (* C16 *)
-RoundTrip     == last.op = "rt" => RoundTripOf(last.S)
-LegacyAgrees  == last.op = "rt" => LegacyAgreesOf(last.S)
-WireMeansSame == last.op = "rt" => WireMeansSameOf(last.S)
+RoundTrip     == last.op \in {"rt", "upd"} => RoundTripOf(last.S)
+LegacyAgrees  == last.op \in {"rt", "upd"} => LegacyAgreesOf(last.S)
+WireMeansSame == last.op \in {"rt", "upd"} => WireMeansSameOf(last.S)
 =============================================================================
